@@ -26,6 +26,13 @@ fn case<const N: usize>(ctx: &mut Ctx, legacy: bool, flags: u8, idx: u16, in_use
     outs.extend(enc_layout_events(&log_new));
     outs.push(99);
     let qs = log_new.iter().find_map(|e| if let Ev::QueueSet { desc, drv, dev, nonzero, .. } = e { Some((*desc, *drv, *dev, *nonzero)) } else { None });
+    let regsize = log_new.iter().find_map(|e| if let Ev::QueueSet { size, .. } = e { Some(*size) } else { None }).unwrap_or(0);
+    // MONITOR 613: a creation the transport's answers forbid (queue in use, or smaller than requested) is refused
+    // without allocating or registering anything; a successful creation registers exactly the requested size
+    let n_alloc = log_new.iter().filter(|e| matches!(e, Ev::Alloc { .. })).count();
+    let n_set = log_new.iter().filter(|e| matches!(e, Ev::QueueSet { .. })).count();
+    let cls = enc_result(&r, |_| 0);
+    ctx.tr.line(613, &[(in_use || (maxsz as u64) < N as u64) as u128, cls[0], n_alloc as u128, n_set as u128, regsize as u128, N as u128], &[1]);
     let mut extra: Option<(Vec<u128>, Vec<u128>)> = None;
     if let (Ok(Ok(_)), Some((desc, drv, dev, nonzero))) = (&r, qs) {
         // device-visible descriptor table after construction: next links i -> i+1, everything else zero
